@@ -30,7 +30,9 @@ NPROC = {'quick': 4, 'thorough': 12}
 HEADS = ['PI_NAME', 'ORGANIZATION_NAME', 'SOURCE_DESCRIPTION', 'MISSION_NAME', 'VOLUME_INFO']
 EXTRA = ['TIME_INTERVAL', 'PI_CONTACT_INFO', 'PLATFORM', 'REVISION', 'DATA_INFO', 'LOCATION', 'R0', 'OTHER_COMMENTS', 'STIPULATIONS_ON_USE']
 ATTRVAL = {'VOLUME_INFO': '1, 1', 'TIME_INTERVAL': '60', 'REVISION': 'R0', 'PI_NAME': 'Doe, Jane', 'R0': 'first: version',
-           'OTHER_COMMENTS': '', 'STIPULATIONS_ON_USE': '', 'LLOD_FLAG': '-8888', 'LLOD_VALUE': '0.01'}
+           'OTHER_COMMENTS': '', 'STIPULATIONS_ON_USE': '', 'LLOD_FLAG': '-8888', 'LLOD_VALUE': '0.01',
+           # two limits, whatever the number of variables is (one for all / one per variable / neither: then no limit is known)
+           'ULOD_FLAG': '-7777', 'ULOD_VALUE': '5.0, 10.0'}
 VALS = [0., 1.5, -2.25, 1234567., 1e-20, -3.3e15, 123456789., 0.1, 1 / 3., 2 / 3., 99999995., -0.000123456749]
 CODES = [-999, -9999, -99999, -8888.5, 9999999, -9999999, -99999999, -999.25, -9999999999999, -9999999999.5]      # also codes spelt with more characters than a formatted value
 
@@ -48,14 +50,20 @@ def gen(rng, tier):
             nocode = rng.random() < 0.15        # no missing_value attribute: the writer's default code (-999) stands for the masked cells
             if nocode:
                 code = -999
+            elif rng.random() < 0.12:
+                code = rng.choice([0, 0.0])          # zero is a legal missing-value code (counts that are never zero)
             near = [code * (1 - 5e-6), code * (1 + 3e-6), code + 0.05 * (1 if abs(code) < 1e5 else 1000)]   # close to the code, different at 7 digits
+            if code == 0:
+                near = [0.05, -0.003, 1e-20]
             nm = rng.choice(['O3', 'NO2_ppbv', 'CO', 'Alt/m', 'T', 'Cloud_Flag', 'pH_index']) + str(i)
             deps.append(dict(name=nm, unit=rng.choice(['ppbv', 'm', 'K', 'molec cm-3', 'unknown', 'mol/(m2 s)', 'ug/m3 (STP)', '(dimensionless)',
                                                        # no units at all (a flag, a counter); units spelt like the variable itself
-                                                       '', nm.replace('/', '_')]),
+                                                       '', nm.replace('/', '_'),
+                                                       # text beyond ASCII (the file is written in the encoding of the locale)
+                                                       u'\u00b5g m-3', u'\u00b0C']),
                              vscale=rng.choice([None, None, None, None, 0.5, 1000., 2]),     # a `scale` attribute on the input variable
                              code=code, nocode=nocode, fill=rng.choice([code, code, -7777, 1e20]),
-                             vals=[rng.choice(VALS + near + [rng.uniform(-1, 1) * 10 ** rng.randint(-8, 8)]) for _ in range(nrec)],
+                             vals=[rng.choice([x for x in VALS if x != code] + near + [rng.uniform(-1, 1) * 10 ** rng.randint(-8, 8)]) for _ in range(nrec)],
                              mask=[rng.random() < 0.25 for _ in range(nrec)]))
         attrs = rng.sample(HEADS + EXTRA, rng.randint(0, 8))
         if nrec >= 2 and nrec < 10 and rng.random() < 0.15:
@@ -71,6 +79,8 @@ def gen(rng, tier):
             for d_ in deps:
                 if not d_['mask'][0]:
                     d_['vals'][0] = -8888.
+        if rng.random() < 0.15:
+            attrs = [a for a in attrs if not a.startswith('ULOD')] + ['ULOD_FLAG', 'ULOD_VALUE']
         out.append(dict(nrec=nrec, deps=deps, attrs=attrs, iunit=rng.choice(['s', 'seconds since midnight', None, 'Start_UTC']),
                         wdate=rng.random() < 0.8, tdtype=rng.choice(['d', 'd', 'f', 'i']),
                         ipos=rng.choice([0, 0, 1, len(deps)])))      # where the independent variable sits among the input's variables
